@@ -456,8 +456,96 @@ def peer_family(ctx, nseq, length, given=None):
     return stats
 
 
+# ---------------------------------------------------------------------------------------------
+# C03 through the C ABI (Properties/C03_CAbi.v): harness ffi_client (extern "C" functions, loopback TCP peer)
+# ---------------------------------------------------------------------------------------------
+CABI_OP = {1: 'rc', 2: 'rd', 3: 'rh', 4: 'ri', 5: 'wc', 6: 'wr', 15: 'wmc', 16: 'wmr'}
+
+
+def cabi_bit(i):
+    return 1 if i % 2 == 0 else 0
+
+
+def cabi_reg(i):
+    return (i * 257) % 65536
+
+
+def cabi_family(ctx, quick):
+    """every request kind through rodbus_client_channel_* (first ADU the peer receives vs the Spec's encoding of the call), and
+    one caller-owned rodbus_bit_list / rodbus_register_list object used for several write calls, growing in between or not
+    (all ADUs the peer receives vs the Spec: each call transmits what the list holds at call time)"""
+    r = ctx.rng
+    reqs = []
+    for k in (1, 2, 3, 4, 5, 6, 15, 16):
+        ns = {1: [1, 7, 8, 9, 2000], 2: [1, 9, 2000], 3: [1, 2, 125], 4: [1, 125], 5: [0, 1], 6: [0, 513, 65535], 15: [1, 7, 8, 9, 16, 17, 100, 1968], 16: [1, 2, 3, 123]}[k]
+        if not quick:
+            ns = ns + [r.randrange(1, LIMIT[k] + 1) for _ in range(12)] if k not in (5, 6) else ns
+        for n in ns:
+            cnt = n if k not in (5, 6) else 1
+            for s0 in {2000, 65536 - cnt, r.randrange(2000, 65536 - cnt + 1)}:
+                reqs.append((k, s0, n))
+    out = ctx.harness('ffi_client', [f'req {CABI_OP[k]} {s0} {n}' for k, s0, n in reqs], timeout=900)
+
+    def unit_of(s0, n):
+        return (s0 + 7 * n) % 247 + 1
+
+    def vals(k, n):
+        return None if k not in (15, 16) else ('l', tuple(cabi_bit(i) if k == 15 else cabi_reg(i) for i in range(n)))
+    enc = ctx.coq_eval(REQS, 'run_enc', [to_coq(norm(('T', k, unit_of(s0, n), s0, n, vals(k, n), 0, 2)), 0) for k, s0, n in reqs], case_type=CASE_TYPE, per_shard=30)
+    bad = 0
+    import re as _re
+    for (k, s0, n), o, b in zip(reqs, out, enc):
+        m = _re.search(r'wire:(\S+?)/(\S+)', o)
+        model, spec = b.split('|')
+        spec = model if spec == '=' else spec
+        got = 'SENT ' + m.group(1) if m else o
+        if got != spec or got != model:
+            bad += 1
+            if bad <= 2:
+                ctx.violation(f'client.cabi.{KIND_NAME[k]}.wrong-encoding' if got != spec else 'model-differs-from-impl',
+                              f'C ABI rodbus_client_channel_{KIND_NAME[k]} start={s0} n={n}: the peer received `{got[:80]}` but the Spec says `{spec[:80]}` [ffi_client: req {CABI_OP[k]} {s0} {n}]',
+                              {'cabi_reqs': [[k, s0, n]], 'impl': o[:600], 'spec': spec}, no_failing_input=(got == spec))
+    # list reuse
+    reuse = []
+    for k in (15, 16):
+        for n in ([1, 3, 8] if quick else [1, 2, 3, 7, 8, 9, 16, 50]):
+            for kk, add in ([(2, True), (3, True), (2, False)] if quick else [(2, True), (3, True), (4, True), (2, False), (3, False)]):
+                reuse.append((k, r.choice([0, 100, 2000, 60000]), n, kk, add))
+    out2 = ctx.harness('ffi_client', [f'reuse {CABI_OP[k]} {s0} {n} {kk}{"+a" if add else ""}' for k, s0, n, kk, add in reuse], timeout=900)
+    ok = ctx.build_models(['Model.ClientCAbiEval'])
+
+    def steps(k, s0, n, kk, add):
+        f = cabi_bit if k == 15 else cabi_reg
+        st = ['inl ' + vlib.coq_N_list([f(i) for i in range(n)])]
+        for j in range(kk):
+            st.append(f'inr ({unit_of(s0, n)}, {s0})')
+            if add:
+                st.append('inl ' + vlib.coq_N_list([f(n + j)]))
+        return f'({vlib.coq_bool(k == 15)}, [{"; ".join(st)}])'
+    lst = ctx.coq_eval(['Base.Show', 'Model.ClientCAbiEval'], 'run_cabi_list_case', [steps(*x) for x in reuse], case_type='cabi_list_case', per_shard=20) if ok else [None] * len(reuse)
+    for x, o, b in zip(reuse, out2, lst):
+        k, s0, n, kk, add = x
+        m = _re.search(r'ffi:(\S+) rust:\S+ wire:(\S+?)/(\S+)', o)
+        if b is None:
+            bad += 1
+            continue
+        model, spec = b.split('|')
+        spec = model if spec == '=' else spec
+        got = m.group(2) if m else o
+        if got != spec or got != model:
+            bad += 1
+            if bad <= 4:
+                ctx.violation(f'client.cabi.{KIND_NAME[k]}.list-reuse.wire-log-differs-from-the-spec' if got != spec else 'model-differs-from-impl',
+                              f'C ABI: ONE {"rodbus_bit_list" if k == 15 else "rodbus_register_list"} with {n} values passed to {kk} successive rodbus_client_channel_{KIND_NAME[k]} calls'
+                              f'{" (one value appended between calls)" if add else ""}: the peer received `{got[:160]}` but the Spec (each call transmits what the list holds at call time) '
+                              f'says `{spec[:160]}`; return codes/callbacks {m.group(1) if m else "?"} [ffi_client: reuse {CABI_OP[k]} {s0} {n} {kk}{"+a" if add else ""}]',
+                              {'cabi_reuse': [list(x)], 'impl': o[:800], 'spec': spec, 'model': model}, no_failing_input=(got == spec))
+    ctx.oblige('correspondence:c-abi-requests-and-list-reuse-vs-spec', bad == 0, f'{bad} of {len(reqs) + len(reuse)}')
+    return len(reqs) + len(reuse)
+
+
 def run(ctx):
-    ctx.translate(['Consts.v', 'ClientTables.v'])
+    ctx.translate(['Consts.v', 'ClientTables.v', 'SessionErrors.v', 'FfiTables.v'])
     models_ok = ctx.build_models(REQS + ['Spec.ClientCodecSpec'])
     ctx.prove()
     if ctx.tier == 'thorough':
@@ -573,6 +661,9 @@ def run(ctx):
     if not ctx.replay:
         n_sess = session_family(ctx, 8 if quick else 64, 60 if quick else 300)
         classes['session-calls'] = n_sess
+        n_cabi = cabi_family(ctx, quick)
+        classes['cabi-cases'] = n_cabi
+        n_sess += n_cabi
         pst = peer_family(ctx, 150 if quick else 3000, 6)
         classes.update(pst)
         n_sess += pst['peer-calls']
